@@ -1,9 +1,9 @@
 #!/bin/bash
-# usage: confirm_seed.sh <dir containing patch.diff demo.rs meta.json> <seed id, e.g. C12-A> [crate, default serde_avro_fast]
+# usage: confirm_seed.sh <dir containing patch.diff demo.rs meta.json> <seed id, e.g. C12-A> [crate, default serde_avro_fast] [extra cargo test args for the demo, e.g. "--features zstandard"]
 # Confirms, in a scratch copy of /repo HEAD (outside /repo and /verif): patch applies, suite green with the patch,
 # demo fails with the patch and passes without it.  On success copies the seed to /verif/seeded/<id>/.
 set -u
-SRC=$(readlink -f "$1"); ID="$2"; CR="${3:-serde_avro_fast}"
+SRC=$(readlink -f "$1"); ID="$2"; CR="${3:-serde_avro_fast}"; FEAT="${4:-}"
 D=$(mktemp -d /tmp/savf-confirm.XXXXXX)
 export CARGO_TARGET_DIR=/tmp/savf-confirm-target
 trap 'rm -rf "$D"' EXIT
@@ -14,10 +14,10 @@ suite=$(cargo nextest run --workspace --no-fail-fast --offline 2>&1 | grep -E "S
 echo "suite with patch: $suite"
 allf=$(cargo check --workspace --all-features --offline 2>&1 | grep -cE "^error")
 cp "$SRC/demo.rs" $CR/tests/zz_demo.rs
-with=$(cargo test --offline -p $CR --test zz_demo 2>&1 | grep -E "^test result|could not compile|overflowed|SIGSEGV|SIGABRT|error: test failed" | head -2 | tr '\n' ' ')
+with=$(cargo test --offline -p $CR $FEAT --test zz_demo 2>&1 | grep -E "^test result|could not compile|overflowed|SIGSEGV|SIGABRT|error: test failed" | head -2 | tr '\n' ' ')
 echo "demo with patch: $with"
 patch -p1 -R --no-backup-if-mismatch -s < "$SRC/patch.diff"
-without=$(cargo test --offline -p $CR --test zz_demo 2>&1 | grep -E "^test result|could not compile|error: test failed" | head -2 | tr '\n' ' ')
+without=$(cargo test --offline -p $CR $FEAT --test zz_demo 2>&1 | grep -E "^test result|could not compile|error: test failed" | head -2 | tr '\n' ' ')
 echo "demo without patch: $without"
 ok=1
 echo "$suite" | grep -q "140 passed" || ok=0
